@@ -562,11 +562,13 @@ def body_action(E, action, n, m, nsample_hi, preset='soft-restarts', num_pts=Non
     allowed = old_records + news
     for k in range(M.npt()):
         xk = M.xpt(k, abs_coordinates=True)
-        E.prove(E.any([rec_equal(E, xk, M.fval_v[k, :], M.nsamples[k], M.eval_num[k], R, n, m) for R in allowed]),
-                'C03:%s:every-slot-holds-one-whole-evaluated-record' % action)
+        ok_slot = E.any([rec_equal(E, xk, M.fval_v[k, :], M.nsamples[k], M.eval_num[k], R, n, m) for R in allowed])
+        E.prove(ok_slot, 'C03:%s:every-slot-holds-one-whole-evaluated-record' % action)
+        E.prove(ok_slot, 'C17:%s:slot-point-mean-residual-count-and-number-belong-together' % action)
     if M.objsave is not None:
-        E.prove(E.any([rec_equal(E, M.xsave, M.rsave, M.nsamples_save, M.eval_num_save, R, n, m) for R in allowed]),
-                'C03:%s:saved-slot-holds-one-whole-evaluated-record[%s]' % (action, 'exit' if exit_info is not None else 'ok'))
+        ok_save = E.any([rec_equal(E, M.xsave, M.rsave, M.nsamples_save, M.eval_num_save, R, n, m) for R in allowed])
+        E.prove(ok_save, 'C03:%s:saved-slot-holds-one-whole-evaluated-record[%s]' % (action, 'exit' if exit_info is not None else 'ok'))
+        E.prove(ok_save, 'C17:%s:saved-point-mean-residual-count-and-number-belong-together' % action)
         E.prove(E.same(M.objsave, objective(E, M, M.rsave, M.xsave)), 'C03:%s:saved-objective-is-F-of-saved-record' % action)
     post = spec_final_obj(E, M)
     if nsample_hi == 1:
